@@ -322,27 +322,36 @@ pub(crate) fn dict_methods(registry: &mut MethodsBuilder) {
             pairs.map(|x| x.get())
         };
 
-        let mut this = DictMut::from_value(this)?;
+        // Check that the dict can be mutated before looking at the arguments.
+        drop(DictMut::from_value(this)?);
+        // An element of `pairs` may be this very dict (`x.update([x])`), and iterating
+        // it needs to borrow the dict: read the pairs before borrowing it mutably.
+        let mut pairs_from_iterable = Vec::new();
         if let Some(pairs) = pairs {
-            match DictRef::from_value(pairs) {
-                Some(dict) => {
-                    for (k, v) in dict.iter_hashed() {
-                        this.aref.insert_hashed(k, v);
-                    }
-                }
-                _ => {
-                    for v in pairs.iterate(heap)? {
-                        let mut it = v.iterate(heap)?;
-                        // `StarlarkIterator` is fused.
-                        let (Some(k), Some(v), None) = (it.next(), it.next(), it.next()) else {
-                            return Err(anyhow::anyhow!(
+            if DictRef::from_value(pairs).is_none() {
+                for v in pairs.iterate(heap)? {
+                    let mut it = v.iterate(heap)?;
+                    // `StarlarkIterator` is fused.
+                    let (Some(k), Some(v), None) = (it.next(), it.next(), it.next()) else {
+                        return Err(anyhow::anyhow!(
                             "dict.update expect a list of pairs or a dictionary as first argument, got a list of non-pairs.",
                         ).into());
-                        };
-                        this.aref.insert_hashed(k.get_hashed()?, v);
-                    }
+                    };
+                    pairs_from_iterable.push((k.get_hashed()?, v));
                 }
             }
+        }
+
+        let mut this = DictMut::from_value(this)?;
+        if let Some(pairs) = pairs {
+            if let Some(dict) = DictRef::from_value(pairs) {
+                for (k, v) in dict.iter_hashed() {
+                    this.aref.insert_hashed(k, v);
+                }
+            }
+        }
+        for (k, v) in pairs_from_iterable {
+            this.aref.insert_hashed(k, v);
         }
 
         for (k, v) in kwargs.iter_hashed() {
